@@ -104,11 +104,11 @@ def _slip132_kind(version: bytes) -> str:
     return _addr_kind(a)
 
 
-def _slip132_version(version: bytes, k: int) -> bytes:
+def _slip132_version(version: bytes, k: int, prv: bool) -> bytes:
+    """version of the child slip132's k-th builder gives a root key of this version; `prv` is the privacy of the
+    KEY (the builders read key[0]); a key whose privacy contradicts its version is refused by BIP32KeyData."""
     from btclib import slip132
     from btclib.bip32 import BIP32KeyData
-    from btclib.network import XPRV_VERSIONS_ALL
-    prv = version in XPRV_VERSIONS_ALL
     fn = [slip132.p2pkh_xkey, slip132.p2wpkh_xkey, slip132.p2wpkh_p2sh_xkey][k]
     x = fn(_root_key(version, prv), "m/84h/0h/0h" if prv else "m/0/1")
     return BIP32KeyData.b58decode(x).version
@@ -193,7 +193,7 @@ def impl(line: str) -> str:  # noqa: PLR0911, PLR0912
         if op == "slip132.kind":
             return "ok " + _slip132_kind(unhx(t[1]))
         if op == "slip132.version":
-            return "ok " + hx(_slip132_version(unhx(t[1]), int(t[2])))
+            return "ok " + hx(_slip132_version(unhx(t[1]), int(t[2]), t[3] == "True"))
         if op == "wif.enc":
             return "ok " + T(b58.wif_from_prv_key(int(t[2]), t[1], t[3] == "True"))
         if op == "wif.dec":
@@ -981,7 +981,7 @@ def run(ctx):  # noqa: PLR0912, PLR0915
         lines.append(f"slip132.kind {hx(v)}")
     for v in allv:
         for k in (0, 1, 2):
-            lines.append(f"slip132.version {hx(v)} {k}")
+            lines.append(f"slip132.version {hx(v)} {k} {v in N.XPRV_VERSIONS_ALL}")
     ctx.stream("slip132", lines)
     ctx.exhaustive_streams.append("slip132")
 
